@@ -8,10 +8,15 @@ ordered-collection specification: an association list plus the cursor (`GetCurre
 key order, so nothing below depends on the list being sorted; `insert` keeps it sorted only so that
 `dump` prints keys in B-tree order.
 
-`Reader.read fixed` is `reader.Read`: with `fixed = false` it is the code as it stands in the pinned
-tree (after draining a partially copied chunk `readChunk` is cleared but `chunkIndex` is NOT
-advanced); with `fixed = true` it is the code after the one-line repair
-`proposed_fixes/C31-advance-chunk-index.diff`.  The driver runs `fixed = true`.
+`Reader.read fixed` is `reader.Read`: with `fixed = false` it is the code before fix b8bcdc43 (after
+draining a partially copied chunk `readChunk` is cleared but `chunkIndex` is NOT advanced); with
+`fixed = true` it is the code as it stands.  The driver runs `fixed = true`.  The reader positions the
+cursor with `locateR` (fix 7fc80460: a `Next` shortcut that misses falls back to `Find`); `locate` is
+the block without the fallback (the writer's update mode, and the reader before that fix).
+
+The B-tree's cursor (`Tree.cur`) is the ONE cursor of the store: every open reader and writer reads it
+(`GetCurrentKey`) and moves it (`Next` / `Find`) on each step.  `Sess` (end of file) is a store with
+several readers and writers open at once, whose steps can be interleaved in any order.
 
 Unbounded Go `for` loops (`Encoder.Close`, `StreamingDataStore.RemoveCurrentItem`) take a fuel
 argument; the drivers pass `items.length + 1`, which the theorems show is enough.
@@ -55,7 +60,31 @@ def succ : Items → SKey → Option SKey
     | none => if c.lt e.1 then some e.1 else none
     | some m => if c.lt e.1 ∧ e.1.lt m then some e.1 else some m
 
-/-- the B-tree as the streaming store sees it -/
+/-- the least stored key (where `First` goes) -/
+def least : Items → Option SKey
+  | [] => none
+  | e :: rest =>
+    match least rest with
+    | none => some e.1
+    | some m => if e.1.lt m then some e.1 else some m
+
+/-- the greatest stored key -/
+def greatest : Items → Option SKey
+  | [] => none
+  | e :: rest =>
+    match greatest rest with
+    | none => some e.1
+    | some m => if m.lt e.1 then some e.1 else some m
+
+/-- where a failed `Find(k)` leaves the cursor (see `Tree.find`) -/
+def missCursor (it : Items) (k : SKey) (cur : Option SKey) : Option SKey :=
+  if it.isEmpty then cur
+  else match succ it k with
+    | some m => some m
+    | none => greatest it
+
+/-- the B-tree as the streaming store sees it. `cur` is the store's ONE cursor, shared by every open
+reader and writer of the store: position = (entry key, chunk index), or nothing selected. -/
 structure Tree where
   items : Items
   cur : Option SKey
@@ -74,11 +103,21 @@ def currentValue (t : Tree) : Chunk :=
   | none => []
   | some c => (lookup t.items c).getD []
 
-/-- `Find(k, false)`. On a miss the real cursor rests near the search end; here: the successor. -/
+/-- `Find(k, false)`. On a miss `Find` returns before touching the cursor when the store is empty;
+otherwise the real cursor is left SELECTED on an item of the leaf where the search ended (the next
+greater key inside that leaf, else the leaf's last item). Which item that is depends on the node
+layout; the model takes the successor, else the greatest key. What the streaming code can observe of
+it is only whether something is selected (`C31.read_cursor_irrelevant`). -/
 def find (t : Tree) (k : SKey) : Tree × Bool :=
   match lookup t.items k with
   | some _ => ({ t with cur := some k }, true)
-  | none => ({ t with cur := succ t.items k }, false)
+  | none => ({ t with cur := missCursor t.items k t.cur }, false)
+
+/-- `First` -/
+def first (t : Tree) : Tree × Bool :=
+  match least t.items with
+  | some m => ({ t with cur := some m }, true)
+  | none => (t, false)
 
 /-- `Next` -/
 def next (t : Tree) : Tree × Bool :=
@@ -120,13 +159,25 @@ def remove (t : Tree) (k : SKey) : Tree × Bool :=
 
 end Tree
 
-/-- The block shared by `reader.Read` and `writer.Write` (update mode): if the cursor sits on the
-chunk before `sdk` step with `Next` (and check where it landed), otherwise `Find`. -/
+/-- The cursor-positioning block of `writer.Write` (update mode), and of `reader.Read` BEFORE fix
+7fc80460: if the cursor sits on the chunk before `sdk` step with `Next` (and check where it landed: a
+foreign key counts as "not found"), otherwise `Find`. -/
 def locate (t : Tree) (sdk : SKey) : Tree × Bool :=
   let ck := t.currentKey
   if (⟨ck.key, ck.idx + 1⟩ : SKey) = sdk then
     let (t', found) := t.next
     if found ∧ t'.currentKey ≠ sdk then (t', false) else (t', found)
+  else t.find sdk
+
+/-- The cursor-positioning block of `reader.Read` as it stands (fix 7fc80460): the same `Next` shortcut,
+but when the step did not land on the wanted chunk (`Next` failed — e.g. nothing was selected and the
+current key only READ as the zero key — or it landed on another key) the reader positions by key with
+`Find` instead of reporting end of stream. -/
+def locateR (t : Tree) (sdk : SKey) : Tree × Bool :=
+  let ck := t.currentKey
+  if (⟨ck.key, ck.idx + 1⟩ : SKey) = sdk then
+    let (t', found) := t.next
+    if ¬ found ∨ t'.currentKey ≠ sdk then t'.find sdk else (t', found)
   else t.find sdk
 
 /-! ## reader -/
@@ -146,8 +197,10 @@ inductive ReadResult where
   | eof
 deriving Repr, DecidableEq
 
-/-- `reader.Read(p)` with `len(p) = n`. -/
-def Reader.read (fixed : Bool) (t : Tree) (r : Reader) (n : Nat) : Tree × Reader × ReadResult :=
+/-- `reader.Read(p)` with `len(p) = n`; `loc` is the block that positions the shared cursor on the
+wanted chunk (`locateR` in the code as it stands, `locate` before fix 7fc80460). -/
+def Reader.readWith (loc : Tree → SKey → Tree × Bool) (fixed : Bool) (t : Tree) (r : Reader) (n : Nat) :
+    Tree × Reader × ReadResult :=
   match r.readChunk with
   | some rc =>
     let out := (rc.drop r.readCount).take n
@@ -157,7 +210,7 @@ def Reader.read (fixed : Bool) (t : Tree) (r : Reader) (n : Nat) : Tree × Reade
     else
       (t, { r with readCount := r.readCount + out.length }, .data out)
   | none =>
-    let (t', found) := locate t ⟨r.key, r.chunkIndex⟩
+    let (t', found) := loc t ⟨r.key, r.chunkIndex⟩
     if found then
       let ba := t'.currentValue
       let out := ba.take n
@@ -166,6 +219,11 @@ def Reader.read (fixed : Bool) (t : Tree) (r : Reader) (n : Nat) : Tree × Reade
       else
         (t', { r with chunkIndex := r.chunkIndex + 1 }, .data out)
     else (t', r, .eof)
+
+/-- `reader.Read` as the code has it: the `Next` shortcut is tried when the cursor's FULL key (entry key
+and chunk index) is the one before the wanted key, and a shortcut that misses falls back to `Find`. -/
+def Reader.read (fixed : Bool) (t : Tree) (r : Reader) (n : Nat) : Tree × Reader × ReadResult :=
+  Reader.readWith locateR fixed t r n
 
 /-- Call `Read` with the buffer sizes `bufs` in turn, stopping at EOF. Result: all bytes delivered,
 and whether EOF was reached. -/
@@ -297,5 +355,134 @@ def opRemove (t : Tree) (key : Nat) : Tree × Out :=
 def opOpen (t : Tree) (key : Nat) : Tree × Option Reader :=
   let (t0, found) := findOne t key
   if found then (t0, some (Reader.new t0.currentKey.key t0.currentKey.idx)) else (t0, none)
+
+/-! ## several open readers and writers on one store
+
+Every decoder (`GetCurrentValue`) and encoder (`Add`, `Update`, …) handed out by one store works on the
+store's B-tree and therefore on its ONE cursor (`Tree.cur`): each `Read`/`Write` reads the cursor
+(`GetCurrentKey`) and moves it (`Next`/`Find`).  A session is the store plus the readers and writers
+that are open on it; its steps may be interleaved in any order. -/
+
+/-- an open reader with (ghost) what it has delivered so far and whether it has reported EOF -/
+structure Slot where
+  r : Reader
+  got : List Nat
+  eof : Bool
+deriving Repr, Inhabited
+
+structure Sess where
+  tree : Tree
+  readers : List Slot
+  writers : List Writer
+deriving Repr, Inhabited
+
+def Sess.empty : Sess := ⟨Tree.empty, [], []⟩
+
+/-- reader `j` calls `Read` with a buffer of `n` bytes (`loc`: see `Reader.readWith`) -/
+def Sess.rdWith (loc : Tree → SKey → Tree × Bool) (s : Sess) (j n : Nat) : Sess × Option ReadResult :=
+  match s.readers[j]? with
+  | none => (s, none)
+  | some sl =>
+    match sl.r.readWith loc true s.tree n with
+    | (t', r', .eof) => ({ s with tree := t', readers := s.readers.set j { sl with r := r', eof := true } }, some .eof)
+    | (t', r', .data out) =>
+      ({ s with tree := t', readers := s.readers.set j { sl with r := r', got := sl.got ++ out } }, some (.data out))
+
+def Sess.rd (s : Sess) (j n : Nat) : Sess × Option ReadResult := s.rdWith locateR j n
+
+/-- `FindOne(key)` then `GetCurrentValue()`: a new reader in the next free slot -/
+def Sess.openReader (s : Sess) (key : Nat) : Sess × Bool :=
+  match opOpen s.tree key with
+  | (t0, some r) => ({ s with tree := t0, readers := s.readers ++ [⟨r, [], false⟩] }, true)
+  | (t0, none) => ({ s with tree := t0 }, false)
+
+inductive EncKind where
+  | add | update | upsert | addIfNotExist
+deriving Repr, DecidableEq
+
+/-- `Add(key)` / `Update(key)` / `Upsert(key)` / `AddIfNotExist(key)` up to the point where the encoder
+is handed out (`none`: nil encoder, nil error) -/
+def encOpen (t : Tree) (kind : EncKind) (key : Nat) : Tree × Option Writer :=
+  match kind with
+  | .add => (t, some ⟨key, 0, true⟩)
+  | .update =>
+    let (t0, found) := findOne t key
+    if found then (t0, some ⟨t0.currentKey.key, 0, false⟩) else (t0, none)
+  | .upsert =>
+    let (t0, found) := findOne t key
+    if found then
+      let (t1, found1) := findOne t0 key
+      if found1 then (t1, some ⟨t1.currentKey.key, 0, false⟩) else (t1, none)
+    else (t0, some ⟨key, 0, true⟩)
+  | .addIfNotExist =>
+    let (t0, found) := findOne t key
+    if found then (t0, none) else (t0, some ⟨key, 0, true⟩)
+
+def Sess.openWriter (s : Sess) (kind : EncKind) (key : Nat) : Sess × Bool :=
+  match encOpen s.tree kind key with
+  | (t0, some w) => ({ s with tree := t0, writers := s.writers ++ [w] }, true)
+  | (t0, none) => ({ s with tree := t0 }, false)
+
+/-- encoder `j`: `Encode` one value (one `Write` of its bytes) -/
+def Sess.put (s : Sess) (j : Nat) (p : Chunk) : Sess × Option Bool :=
+  match s.writers[j]? with
+  | none => (s, none)
+  | some w =>
+    let (t', w', ok) := w.write s.tree p
+    ({ s with tree := t', writers := s.writers.set j w' }, some ok)
+
+/-- encoder `j`: `Close` -/
+def Sess.closeWriter (s : Sess) (j : Nat) : Sess × Option Bool :=
+  match s.writers[j]? with
+  | none => (s, none)
+  | some w =>
+    let (t', w', ok) := close (fuelOf s.tree) s.tree w
+    ({ s with tree := t', writers := s.writers.set j w' }, some ok)
+
+/-- one `Decode` of the `json.Decoder` wrapped around reader `j`: `Read` (into a growing buffer) until
+the chunk that holds the next value has been delivered completely. `none` = EOF. -/
+def Sess.decode : Nat → Sess → Nat → Nat → List Nat → Sess × Option (List Nat)
+  | 0, s, _, _, acc => (s, some acc)
+  | fuel + 1, s, j, buf, acc =>
+    match s.rd j buf with
+    | (s', some (.data out)) =>
+      match s'.readers[j]? with
+      | some sl => if sl.r.readChunk.isNone then (s', some (acc ++ out)) else Sess.decode fuel s' j (2 * buf) (acc ++ out)
+      | none => (s', some (acc ++ out))
+    | (s', _) => (s', none)
+
+/-- An event of a session as far as the readers are concerned: a reader reads, or ANYTHING else
+happens to the store (`env t'`: the store is now `t'` — another key was searched, the cursor was moved
+with `First`/`Next`, an encoder wrote or removed chunks, …). -/
+inductive Ev where
+  | rd (j n : Nat)
+  | env (t' : Tree)
+
+def Sess.evWith (loc : Tree → SKey → Tree × Bool) (s : Sess) : Ev → Sess
+  | .rd j n => (s.rdWith loc j n).1
+  | .env t' => { s with tree := t' }
+
+def Sess.runWith (loc : Tree → SKey → Tree × Bool) : Sess → List Ev → Sess
+  | s, [] => s
+  | s, e :: es => Sess.runWith loc (s.evWith loc e) es
+
+def Sess.run (s : Sess) (evs : List Ev) : Sess := s.runWith locateR evs
+
+/-- The shortcut test of `reader.Read` weakened to the POSITION only ("the cursor's chunk index is the
+wanted index minus one" instead of "the cursor's full key + 1 is the wanted key"), in the reader as it
+was BEFORE fix 7fc80460 (a shortcut that lands on a foreign key reports "not found", no fallback). Not
+the code; used for `C31.C31_index_only_fastpath_truncates`. -/
+def locateIdxOnly (t : Tree) (sdk : SKey) : Tree × Bool :=
+  if 0 < sdk.idx ∧ t.currentKey.idx = sdk.idx - 1 then
+    let (t', found) := t.next
+    if found ∧ t'.currentKey ≠ sdk then (t', false) else (t', found)
+  else t.find sdk
+
+/-- the same position-only test in the reader as it stands (a shortcut that misses falls back to `Find`) -/
+def locateIdxOnlyR (t : Tree) (sdk : SKey) : Tree × Bool :=
+  if 0 < sdk.idx ∧ t.currentKey.idx = sdk.idx - 1 then
+    let (t', found) := t.next
+    if ¬ found ∨ t'.currentKey ≠ sdk then t'.find sdk else (t', found)
+  else t.find sdk
 
 end Sop.Stream
